@@ -170,4 +170,35 @@ def check(case):
               "irred" if case["irred"] else "full", f"first={segs[0]}")
 
 
-SUBS = [Sub("restart", case_st, check, quick=40, thorough=560, budget_quick=80, budget_thorough=500)]
+@st.composite
+def late_segments_st(draw):
+    """restart only after >= 2 refinements: the state on disk then contains points created by different iterations"""
+    T = draw(st.integers(3, 5))
+    first = draw(st.integers(2, T - 1))
+    rest = T - first
+    parts = []
+    while rest > 0:
+        p = draw(st.integers(1, rest))
+        parts.append(p)
+        rest -= p
+    return [first] + parts
+
+
+# symmetric refinement with merges of new points across different parents (hexagonal / fcc / bcc / cubic groups),
+# several iterations before the first restart, per-K results on disk
+merge_st = st.fixed_dictionaries(dict(
+    g=runhelp.grid_case_st(max_div=2, max_fft=2, kinds=["hexagonal", "fcc", "bcc", "sc", "tetragonal"], max_wann=2),
+    calcs=st.fixed_dictionaries(dict(
+        names=st.sampled_from([["cumdos", "ohmic_sea"], ["cumdos"], ["ohmic_sea", "dos"]]),
+        Efermi=st.sampled_from([[-0.41, -0.13, 0.15, 0.43], [-0.3, 0.1, 0.5], [-0.7, -0.35, 0.0, 0.35, 0.7]]))),
+    segs=late_segments_st(),
+    mesh=st.sampled_from([3, 2, 3]),
+    fac=st.integers(1, 3),
+    irred=st.just(True),
+    mode=st.sampled_from(["dump_results", "dump_results", "allow_restart"]),
+    listing=st.sampled_from(["sorted", "reversed", "perm"]),
+    ls=st.integers(0, 2 ** 32),
+))
+
+SUBS = [Sub("restart", case_st, check, quick=40, thorough=560, budget_quick=80, budget_thorough=500),
+        Sub("merge", merge_st, check, quick=24, thorough=320, budget_quick=80, budget_thorough=500, group="restart")]
